@@ -1926,3 +1926,17 @@ package ecs
 //@      notifyLast[w.listener.val] == evtId(mk(EntityEvent, nil, exchNewRel(w.entities[int(e.id)].arch), comps, nil, w.entities[int(e.id)].arch.archetypeAccess.Mask, zeroMaskV(), e, mk(Entity, 0, 0),
 //@           newBits(w.entities[int(e.id)].arch, len(comps))))
 //@   ensures[silent] w.listener == nil ==> (forall l ref :: {notifyCount[l]} notifyCount[l] == old(notifyCount[l]))
+
+// getArchetypes (C08): "every entity that matched the filter when the call was made" - the batch operations work on the
+// list returned here while they retire and create tables, so it must be a snapshot: a backing store of its own.
+//@ func World.getArchetypes(w, filter) (r)
+//@   props C08 C07
+//@   requires filter != nil && w.filterCache.indices != nil && (is(filter, *CachedFilter) ==> as(filter, *CachedFilter) != nil)
+//@   requires forall id uint32 :: {mapHas(w.filterCache.indices, id)} mapHas(w.filterCache.indices, id) ==> 0 <= w.filterCache.indices[id] && w.filterCache.indices[id] < len(w.filterCache.filters)
+//@   requires forall k int :: {w.nodePointers[k]} 0 <= k && k < len(w.nodePointers) ==> w.nodePointers[k] != nil && w.nodePointers[k].nodeData != nil
+//@   flag nosafe may_panic noframe lfinline
+//@   ensures[snapshot] r.data == nil || fresh(r.data)
+//@   loop #1
+//@   inv arches.data == nil || fresh(arches.data)
+//@   loop #2
+//@   inv arches.data == nil || fresh(arches.data)
